@@ -348,6 +348,7 @@ func main() {
 	facts["storage.callers.startFlusher"] = callersOf("startFlusher")
 	facts["storage.callers.flushPagesLocked"] = callersOf("flushPagesLocked")
 	facts["storage.callers.closeLocked"] = callersOf("closeLocked")
+	facts["storage.callers.createTable"] = callersOf("createTable")
 	for _, fn := range []string{"fileStore.fetch", "fileStore.update", "btreeNode.encodeLeaf", "btreeNode.decodeLeaf", "btreeNode.decodeInternal", "btreeNode.encodeInternal",
 		"btreeNode.split", "btreeNode.updateCell", "btreeNode.insertLeafCell", "BTree.findCell", "BTree.scanRight", "BTree.scanLeft", "WALBatch.replay", "wal.read", "wal.flush", "LRUCache.set", "LRUCache.get"} {
 		if fd, ok := sf[fn]; ok {
@@ -528,9 +529,14 @@ func lockFacts(facts map[string]interface{}) {
 	facts["lock.brackets"] = br
 	ct := strs(facts["skeleton.storage.RelationService.CreateTable"])
 	inner := strs(facts["skeleton.storage.RelationService.createTable"])
-	facts["lock.createTableLocked"] = hasPrefixSeq(inner, "call:rs.fs.lockShared", "defer:rs.fs.unlockShared") &&
-		indexOf(inner, "call:rs.fs.flushPages") < 0 && indexOf(ct, "call:rs.createTable") >= 0 &&
-		indexOf(ct, "call:rs.createTable") < indexOf(ct, "call:rs.fs.flushPages") && indexOf(ct, "call:rs.createPage") < 0
+	// CREATE TABLE is one section under the exclusive lock: catalog change, then the flush of it
+	// (a Close or a timer tick between the two would see, and write, a statement that may still fail)
+	facts["lock.createTableLocked"] = hasPrefixSeq(ct, "call:rs.fs.lockExclusive", "defer:rs.fs.unlockExclusive") &&
+		indexOf(inner, "call:rs.fs.flushPages") < 0 && indexOf(inner, "call:rs.fs.flushPagesLocked") < 0 &&
+		indexOf(inner, "call:rs.fs.lockShared") < 0 && indexOf(inner, "call:rs.fs.lockExclusive") < 0 &&
+		indexOf(ct, "call:rs.createTable") >= 0 &&
+		indexOf(ct, "call:rs.createTable") < indexOf(ct, "call:rs.fs.flushPagesLocked") && indexOf(ct, "call:rs.createPage") < 0 &&
+		subset(strs(facts["storage.callers.createTable"]), "RelationService.CreateTable")
 	// flushPages = lock; flushPagesLocked; the locked body is reached only from there and from the two
 	// close paths, which take the exclusive lock themselves before they call closeLocked
 	fp := strs(facts["skeleton.storage.fileStore.flushPages"])
@@ -547,7 +553,7 @@ func lockFacts(facts map[string]interface{}) {
 		return i >= 0 && j >= 0 && j < i
 	}
 	facts["lock.flushExclusive"] = hasPrefixSeq(fp, "call:f.lockExclusive", "defer:f.unlockExclusive") && indexOf(fp, "call:f.flushPagesLocked") >= 0 &&
-		subset(strs(facts["storage.callers.flushPagesLocked"]), "fileStore.flushPages", "fileStore.closeLocked") &&
+		subset(strs(facts["storage.callers.flushPagesLocked"]), "fileStore.flushPages", "fileStore.closeLocked", "RelationService.CreateTable") &&
 		subset(strs(facts["storage.callers.closeLocked"]), "fileStore.close", "RelationService.Close") &&
 		lockedBefore(cl, "f.closeLocked") && lockedBefore(rc, "rs.fs.closeLocked") &&
 		// the log is closed only after the lock is held (a running statement appends first)
